@@ -173,12 +173,17 @@ def draw_domain(rng, theme, size):
     return dom
 
 
-def gen_table(rng):
+def gen_table(rng, outer_size=None):
     cls = rng.choice(["Table", "Table", "ProbabilityTable", "ProbabilityTable", "StateTable", "StateActionTable",
                       "StateActionNextStateTable", "TabularPolicy", "TabularPolicy"])
     n = {"StateTable": 1, "StateActionTable": 2, "TabularPolicy": 2, "StateActionNextStateTable": 3}.get(cls) or rng.choice([1, 2, 2, 3, 3])
-    theme = rng.sample(POOL, rng.choice([5, 7, 9, 12]))
+    theme = rng.sample(POOL, rng.choice([5, 7, 9, 12]) if outer_size is None else 14)
     doms = [draw_domain(rng, theme, rng.randint(1, 4)) for _ in range(n)]
+    if outer_size is not None:
+        doms[0] = draw_domain(rng, theme, outer_size)
+        while len(doms[0]) < outer_size:       # theme exhausted by ==-collisions: top up with fresh values
+            doms[0].append("k%d" % len(doms[0]))
+        doms[1:] = [d[:2] for d in doms[1:]]
     # collisions: put into the outermost domain a tuple that is also a field-wise key / a whole domain / a subset
     r = rng.random()
     cand = None
@@ -191,7 +196,7 @@ def gen_table(rng):
         cand = tuple(rng.sample(doms[0], rng.randint(1, len(doms[0]))))
     elif r < .6:
         cand = (rng.choice(doms[0]),)
-    if cand is not None and cand not in doms[0]:
+    if cand is not None and cand not in doms[0] and outer_size is None:
         if len(doms[0]) < 4:
             doms[0].insert(rng.randrange(len(doms[0]) + 1), cand)
         else:
@@ -329,6 +334,27 @@ def selector_families(rng, doms, thorough):
     for _ in range(30 if thorough else 6):
         out.append(("ext", [junk(2) for _ in range(rng.choice([1, 1, 1, 2, 3]))]))
     return out
+
+
+def gen_perm_case(rng, size):
+    """outer domain of `size` (4 or 5) with ALL duplicate-free ordered lists of outer keys of length 3 and 4
+    (size 4: also lengths 1, 2 = all 64 lists): non-monotone partial key lists need >= 4 outer keys"""
+    t = gen_table(rng, outer_size=size)
+    d0 = [dec(e) for e in t["doms"][0]]
+    fams = []
+    for m in ((1, 2, 3, 4) if size == 4 else (3, 4)):
+        for perm in itertools.permutations(range(size), m):
+            ks = [d0[p] for p in perm]
+            fams.append(("outer_list", [ks]))
+    # a few of them with ==-aliases, and followed by a key of the restricted table
+    for _ in range(8):
+        perm = rng.sample(range(size), rng.choice([3, 4]))
+        ks = [d0[p] for p in perm]
+        fams.append(("outer_list", [[alias(rng, k) for k in ks]]))
+        fams.append(("ext", [ks, rng.choice(ks)]))
+    t["chains"] = [[enc(s) for s in ch] for _, ch in fams]
+    t["fams"] = [f for f, _ in fams]
+    return t
 
 
 def gen_case(rng, tier):
@@ -516,6 +542,8 @@ def run(ctx):
         cases = [ctx.replay_case["detail"]["case"]]
     else:
         cases = [gen_case(ctx.rng, tier) for _ in range(ncases)]
+        nperm = (5, 2) if tier == "quick" else (30, 10)      # tables with 4 / 5 outer keys and all ordered key lists
+        cases += [gen_perm_case(ctx.rng, 4) for _ in range(nperm[0])] + [gen_perm_case(ctx.rng, 5) for _ in range(nperm[1])]
     impl = ctx.impl("c12_impl.py", {"cases": cases}, shards=8 if tier == "quick" else 16)["results"]
     terms, idx = [], []
     for i, (case, res) in enumerate(zip(cases, impl)):
@@ -606,7 +634,8 @@ def run(ctx):
         "rule": "tables of 1-3 fields (Table, ProbabilityTable, StateTable, StateActionTable, StateActionNextStateTable, TabularPolicy), "
                 "domains of 1-4 values drawn without ==-duplicates from a pool built to collide (0/False/0.0, 1/True/1.0, '1', (1,), (1,2), "
                 "(1.0,2), frozensets, None, ...), the outermost domain seeded with tuples that are also field-wise keys / whole domains; "
-                "selector chains: all or sampled full keys and their ==-aliases, nested keys, outer elements, outer-key lists, foreign scalars/"
+                "plus tables with 4 (and a few with 5) outer keys indexed with ALL duplicate-free ordered lists of outer keys of length 3 and 4 "
+                "(size 4: all 64 ordered lists); selector chains: all or sampled full keys and their ==-aliases, nested keys, outer elements, outer-key lists, foreign scalars/"
                 "tuples, slices, ellipses, sequences inside tuples, domaintuples, random compositions; distinct = structural hash of "
                 "(class, domains, chain); every chain is non-trivial (a table with >= 1 cell and a selector)",
         "samples": [{"case": dict(cases[0], chains=cases[0]["chains"][:3], fams=cases[0]["fams"][:3]),
